@@ -550,6 +550,22 @@ func (g *lexGen) genBytes() []byte {
 	if g.draw(8, "longstr") == 0 {
 		n = 20 + g.draw(600, "longlen")
 	}
+	if g.draw(30, "hugestr") == 0 {
+		// strings around and beyond the sizes of plausible internal buffers
+		// (filled from a short drawn pattern: the content matters less than
+		// that the whole of it is still there when later tokens were read)
+		n = []int{1023, 1024, 1025, 2000, 4095, 4096, 4097, 5000, 9000, 20000}[g.draw(10, "hugelen")]
+		pat := make([]byte, 3+g.draw(5, "patlen"))
+		for i := range pat {
+			pat[i] = byte(g.draw(256, "patbyte"))
+		}
+		b := make([]byte, n)
+		for i := range b {
+			b[i] = pat[i%len(pat)] + byte(i/len(pat))
+		}
+		g.feat["string>=1023"] = true
+		return b
+	}
 	b := make([]byte, n)
 	mode := g.draw(4, "strmode")
 	for i := range b {
